@@ -402,6 +402,66 @@ def _prim_check(seed: int, n: int) -> tuple[str | None, int]:
             f"(the source ties rest on it): {out[-200:]}"), len(cases)
 
 
+def _rdflib_literal_check(seed: int, n: int) -> tuple[str | None, int]:
+    """model/Terms.v + model/Decoder.v `mk_literal Rdflib` (what rdflib.Literal(lex, lang=, datatype=, normalize=False) does with its
+    arguments: language-tag check, lang-and-datatype refusal, whiteSpace facet of xsd:token / xsd:normalizedString) against the real
+    rdflib on random arguments, as Coq Examples evaluated by vm_compute."""
+    import logging
+    import shutil
+    import tempfile
+    import warnings
+
+    import rdflib
+
+    rng = random.Random(seed * 57 + 11)
+    ws = ["\t", "\n", "\r", " ", "  ", "\x0b", "\x0c", "\x1c", "\x1f", "\x85", "\xa0", "\u1680", "\u2000", "\u2005", "\u200a", "\u2028", "\u2029", "\u202f", "\u205f",
+          "\u3000", "\u200b", "\x84", "a", "b", "\u00e9", " x", "\x1b", "\u3001", "1", "-"]
+    tags = ["en", "en-GB", "", "-", "en-", "en--x", "e1", "a-1", "a-b-c9", "en\n", "en\n\n", "\n", "en-\n", "\u00e9", "en_US", "EN", "x-" + "a" * 12, "1a", "a b", "de", "pl"]
+    xsd = "http://www.w3.org/2001/XMLSchema#"
+    dts = [xsd + "token", xsd + "normalizedString", xsd + "integer", xsd + "string", xsd + "language", "http://dt.org/one", "", xsd + "Token"]
+
+    def enc(s_):
+        return "[" + "; ".join(str(b) for b in s_.encode()) + "]"
+
+    def opt(s_):
+        return "None" if s_ is None else f"(Some {enc(s_)})"
+    cases = []
+    logging.disable(logging.CRITICAL)
+    try:
+        with warnings.catch_warnings():
+            warnings.simplefilter("ignore")
+            for _ in range(n):
+                lex = "".join(rng.choice(ws) for _ in range(rng.randint(0, 7)))
+                k = rng.random()
+                lang = rng.choice(tags) if k < 0.4 else None
+                dt = rng.choice(dts) if 0.3 < k < 0.9 else None
+                try:
+                    lit = rdflib.Literal(lex, lang=lang, datatype=dt, normalize=False)
+                    want = f"Ok (TLit {enc(str(lit))} {opt(lit.language)} {opt(None if lit.datatype is None else str(lit.datatype))})"
+                except TypeError:
+                    want = "Err TypeErr"
+                except ValueError:
+                    want = "Err ValueErr"
+                cases.append(f"mk_literal Rdflib {enc(lex)} {opt(lang)} {opt(dt)} = {want}")
+    finally:
+        logging.disable(logging.NOTSET)
+    body = ["From PJ.Model Require Import Base Terms Encoder Decoder."]
+    for i, c in enumerate(cases):
+        body.append(f"Example lit{i} : {c}.\nProof. vm_compute. reflexivity. Qed.")
+    tmpd = tempfile.mkdtemp(prefix="verif_rlit_")
+    try:
+        (Path(tmpd) / "RlitCases.v").write_text("\n".join(body) + "\n")
+        rc, out = sh(f"cd {VERIF}/coq && timeout 600 coqc -Q model PJ.Model -Q {tmpd} PJ.Rl {tmpd}/RlitCases.v", timeout=700)
+    finally:
+        shutil.rmtree(tmpd, ignore_errors=True)
+    if rc == 0:
+        return None, len(cases)
+    m = re.search(r"line (\d+)", out)
+    bad = cases[(int(m.group(1)) - 2) // 2] if m and 0 <= (int(m.group(1)) - 2) // 2 < len(cases) else "?"
+    return (f"the model's account of rdflib's Literal constructor (model/Decoder.v mk_literal, model/Terms.v rdflib_lex / valid_langtag) differs from the real rdflib: "
+            f"`{bad[:300]}` is what rdflib does :: {out[-200:]}"), len(cases)
+
+
 def _tx_check(ctx, repo: str, n: int, reader: bool, writer: bool, rdf: bool = False) -> tuple[str | None, int, dict]:
     """The translation cross-check (txcheck.py): the generated Gallina of the reader chain, evaluated by vm_compute, against the
     real code of the tree under check on the same frames -- yields and exception classes, frame by frame."""
@@ -498,6 +558,7 @@ def source_ties(ctx, po: dict, pid: str) -> list[str]:
     roots = [(u, t) for u, t in units if covered_by[u] is None]
     with ThreadPoolExecutor(max_workers=len(units) + 1) as ex:
         prim = ex.submit(_prim_check, ctx.seed, 60 if ctx.quick else 400)
+        rlit = ex.submit(_rdflib_literal_check, ctx.seed, 150 if ctx.quick else 1500) if "pyjelly/integrations/rdflib/parse.py" in anchors else None
         tx_r = bool(set(names) & {"decode", "decoder", "generic_parse"})
         tx_w = bool(set(names) & {"encode", "encode_stmt", "flows", "streams", "generic_serialize"})
         tx_rd = "rdflib_serialize" in names
@@ -511,6 +572,7 @@ def source_ties(ctx, po: dict, pid: str) -> list[str]:
         again = [(u, t) for u, t in units if covered_by[u] is not None and root_res[top(u)]["broken"]]
         again_res = dict(zip([u for u, _ in again], ex.map(lambda ut: _one_tie(ut[0], ut[1], repo), again)))
         prim_bad, prim_n = prim.result()
+        rlit_bad, rlit_n = rlit.result() if rlit else (None, 0)
     results = []
     for u, t in units:
         if u in root_res:
@@ -556,6 +618,11 @@ def source_ties(ctx, po: dict, pid: str) -> list[str]:
                                     + (f"; rdflib drivers on real rdflib Graphs / Datasets (and generators of Triple / Quad) against the translated drivers on the stand-ins built from "
                                        f"what the real containers hand out (iteration, graphs(), quads(), namespaces()): same frames and exception classes on {rdd['runs']} runs "
                                        f"({rdd['by_driver']}; {rdd['frames']} frames; exceptions compared: {rdd['exceptions']})" if (rdd := tx_stats.get("rdflib_drivers")) else ""))
+    if rlit_bad:
+        po["broken"].append(rlit_bad)
+    elif rlit_n:
+        ctx.report.notes.append(f"the model's account of rdflib's Literal constructor (mk_literal Rdflib: language-tag check, refusal of a tag with a datatype, whiteSpace facet of "
+                                f"xsd:token / xsd:normalizedString over Python's str.strip characters) agreed with the real rdflib on {rlit_n} random argument triples evaluated by vm_compute inside coqc")
     if prim_bad:
         po["broken"].append(prim_bad)
     else:
@@ -791,8 +858,11 @@ def main() -> int:
             "traces_validated_against_impl": rep.evaluations,
             "correspondence_families": rep.families,
             "input_distribution": dict(sorted(rep.histo.items())),
-            "correspondence_disagreements": len(disagreements),
+            # cases where model and implementation differ / cases where they agree but the property's expectation is not met
+            "correspondence_disagreements": len([d for d in disagreements if d.get("corresponds") is not True]),
+            "property_deviations_with_model_agreeing": len([d for d in disagreements if d.get("corresponds") is True]),
             "known_findings_seen": sorted(seen_known),
+            "known_finding_cases": len(knowns),
             "notes": rep.notes,
         },
         "assumptions": checks.ASSUMPTIONS.get(pid, []) + checks.COMMON_ASSUMPTIONS,
@@ -805,7 +875,7 @@ def main() -> int:
         print(ln)
     print(f"{pid} {a.tier}: theorems {po['discharged']}/{po['obligations']} closed, "
           f"{rep.evaluations} evaluations, {len(rep.nontrivial)} distinct non-trivial, "
-          f"{len(disagreements)} disagreements, {vio_count} violations, {wall:.1f}s")
+          f"{len(disagreements)} disagreements ({len(knowns)} of a known finding), {vio_count} violations, {wall:.1f}s")
     return 1 if vio_count else 0
 
 
